@@ -22,7 +22,7 @@ LEVEL = "exploration"
 RULE = ("exhaustive products of transform-function instances (every function, optional arguments present/omitted, "
         "every angle unit, letter case, separators) in lists of length <= 2 (all), 3 (16-symbol core), 8 (3-symbol "
         "core); unit-bearing arguments x render contexts; a lattice of invertible matrices for the algebraic laws "
-        "(all ordered pairs of a 300-matrix sub-lattice).  Non-trivial: the list contains >= 1 function / the matrix "
+        "(all ordered pairs of a 300-matrix sub-lattice); every multiple of 15 degrees over two turns either way in every angle unit through rotate / skew text and the rotate methods.  Non-trivial: the list contains >= 1 function / the matrix "
         "is not the identity; distinct = distinct expected matrix per sub-check.")
 MANIFEST = dict(
     technique="bounded-exhaustive enumeration of transform lists and matrix lattices against an independent affine "
